@@ -8,6 +8,7 @@ import RbV.Lemmas.PoaAcyclic
 import RbV.Lemmas.PoaHistory
 import RbV.Lemmas.PoaBound
 import RbV.Lemmas.PoaConsensus
+import RbV.Lemmas.PoaBandedFull
 /-!
 # C16 — partial-order alignment: exact on linear graphs, graph stays a growing DAG
 
@@ -212,6 +213,25 @@ theorem model_history_consensus_is_path (x : List Nat) (hx : x ≠ []) (steps : 
       Spelled (Poa.Model.history x steps).labels (plain (Poa.Model.history x steps).es) w :=
   Poa.Model.consensus_path _ _ (Poa.Model.history_dag x hx steps)
 
+/-- **banded clause, for the model**: `global_banded` (mirror model `bandedScore`, which the driver compares
+with every score the real `global_banded` reports, any bandwidth) with default (`MIN_SCORE`) clip penalties
+reports the score of `global` as soon as the bandwidth is at least the query length — on every non-empty
+well-formed DAG, not only on linear graphs, and without needing `bandwidth ≥ #nodes` (the band is centred on
+a column `≤ |query|`).  Side conditions: `gap ≤ 0` (what `Scoring::new` asserts) and no path of gaps reaches
+down to `MIN_SCORE` (`MIN_SCORE < (#nodes + |query| + 1)·gap`), because `global_banded` starts its
+per-column maximum from a `MIN_SCORE` cell.  Proved row by row: every row of the banded table starts in
+column 0, covers all columns and holds the cells — scores and operations — of the global table. -/
+theorem model_banded_full_band_equals_global (sc : Sc) (labels : List Nat) (es : Poa.Model.WEdges)
+    (query : List Nat) (bw : Nat)
+    (hne : labels ≠ [])
+    (hwf : ∀ e ∈ es, e.1 < labels.length ∧ e.2.1 < labels.length)
+    (hac : ∀ v, ¬ Reach (plain es) v v)
+    (hbw : query.length ≤ bw) (hgap : sc.gap ≤ 0)
+    (hmin : Poa.Model.minScore < ((labels.length + query.length + 1 : Nat) : Int) * sc.gap) :
+    Poa.Model.bandedScore sc Poa.Model.minScore Poa.Model.minScore labels es query bw =
+      (Poa.Model.globalAlign sc labels es query).1 :=
+  Poa.Model.bandedScore_full sc labels es query bw ⟨hne, hwf, hac⟩ hbw hgap hmin
+
 /-- **partial** for the alignment modes whose DP is not mirrored (`semiglobal`, `local`, `custom`, narrow
 `global_banded`).  Full statement wanted: for every acyclic graph and every operation list produced by *any*
 of the aligner's modes, `addAlignment g ops seq` is acyclic.  Proved here: the conclusion for every operation
@@ -263,6 +283,10 @@ example : plain (Poa.Model.history [65, 67, 71] [(exSc, [65, 84, 71])]).es = [(0
 example : Poa.Model.consensus [65, 67, 71, 84] [(0, 1, 2), (1, 2, 2), (0, 3, 1), (3, 2, 1)] = some [65, 67, 71] := by decide
 example : Poa.Model.consensus [65] [] = some [65] := by decide
 example : (Poa.Model.history [65, 67, 71] [(exSc, [65, 84, 71]), (exSc, [65, 84, 71])]).labels.length ≤ 3 + (3 + 3) := by decide
+-- banded model: full band = global score; a band of width 1 on a query with 3 leading extra symbols loses
+example : Poa.Model.bandedScore exSc Poa.Model.minScore Poa.Model.minScore [65, 67, 71] [(0, 1, 1), (1, 2, 1)] [65, 84, 71] 3 = 1 := by decide
+example : (Poa.Model.globalAlign exSc [65, 67, 71] [(0, 1, 1), (1, 2, 1)] [65, 84, 71]).1 = 1 := by decide
+example : Poa.Model.minScore < ((3 + 3 + 1 : Nat) : Int) * exSc.gap := by decide
 -- a DAG with a bubble is accepted, a 3-cycle is not
 example : isAcyclic 4 [(0, 1), (1, 2), (0, 3), (3, 2)] = true := by decide
 example : isAcyclic 3 [(0, 1), (1, 2), (2, 0)] = false := by decide
